@@ -107,9 +107,18 @@ def run(ctx, F):
     MSB = "policy::marksweepspace::native_ms::block::Block::"
     for nm, clr in (("naive_brute_force_sweep", "bzero_vo_bit"), ("simple_sweep", "unset_vo_bit_nocheck")):
         f = F.fn(MSB + nm)
-        bounds = [c for c in f.calls if c.bb in f.cfg.live and c.name in ("le", "lt", "ge", "gt") and "load_block_cell_size" in show(strip(f.flow.arg_tree(c, 0))) and
-                  re.search(r"Region::end\(arg1\)|Region::BYTES", show(strip(f.flow.arg_tree(c, 1))))]
-        okb = len(bounds) == 1 and bounds[0].name == "le"
+        ENDRX = r"Region::end\(arg1\)|Region::BYTES"
+        bounds = []
+        for c in f.calls:
+            if c.bb not in f.cfg.live or c.name not in ("le", "lt", "ge", "gt") or len(c.args) != 2:
+                continue
+            a0, a1 = show(strip(f.flow.arg_tree(c, 0))), show(strip(f.flow.arg_tree(c, 1)))
+            if "load_block_cell_size" in a0 and re.search(ENDRX, a1):
+                bounds.append((c, c.name))  # cell + size  OP  end
+            elif "load_block_cell_size" in a1 and re.search(ENDRX, a0):
+                bounds.append((c, {"ge": "le", "gt": "lt", "le": "ge", "lt": "gt"}[c.name]))  # end  OP  cell + size, normalised
+        okb = len(bounds) == 1 and bounds[0][1] == "le"
+        bounds = [b[0] for b in bounds]
         ctx.judge(okb, R, "native MS %s visits every cell of the block, including the last" % nm, expected="loop while cell + cell_size <= block end", found=str([(c.name, show(strip(f.flow.arg_tree(c, 1)))[:50]) for c in bounds]),
                   where=where(f), key=R + "|ms-bound|" + nm)
         cs = [c for c in live_calls(f) if c.q == VO + clr]
@@ -153,5 +162,14 @@ def run(ctx, F):
     cl = closures_of(F, me)
     ctx.judge(any(c.name == "enumerate_objects" for x in cl for c in live_calls(x)), "C07.enumerate", "the per-space closure calls Space::enumerate_objects", expected="space.enumerate_objects(&mut enumerator)", found=str(len(cl)),
               where=where(me), key="C07.enumerate|closure")
-    # the VO-bit scanner reports an object exactly where a bit is set
-    lo = F.fns.get("util::object_enum::VOBitsOnlyEnumerator::visit_block") or None
+    # which blocks the enumeration looks into: every block that is not Unallocated (partially free / reusable blocks hold survivors)
+    n = 0
+    for q, f in sorted(F.fns.items()):
+        if not q.endswith("util::object_enum::BlockMayHaveObjects>::may_have_objects"):
+            continue
+        n += 1
+        rts = [show(strip(t)) for _, t in f.flow.return_trees()]
+        ok = len(rts) == 1 and re.match(r"^PartialEq::ne\(Block::get_state\(arg1\), BlockState::Unallocated\)$|^Not\(.*Unallocated.*\)$", rts[0]) is not None
+        ctx.judge(ok, "C07.enumerate", "%s: a block is enumerated unless it is unallocated" % short(q), expected="state != BlockState::Unallocated (marked, unmarked and reusable blocks may hold objects)", found=str(rts)[:160],
+                  where=where(f), key="C07.enumerate|may-have|" + q)
+    ctx.floor("C07.enumerate", n, 2, "BlockMayHaveObjects implementations")
